@@ -130,3 +130,35 @@ def _enclosing_tests(fi, node):
         if isinstance(anc, ast.IfExp) and any(x is node for x in ast.walk(anc)):
             out.append(anc.test)
     return out
+
+
+def must_call(ctx, fi, target_quals, depth=3, _seen=None):
+    """every normal path from the entry of fi to its exit passes a call that (surely) reaches one of target_quals"""
+    _seen = _seen or set()
+    if fi.qual in _seen or depth < 0:
+        return False
+    cfg = ctx.cfg(fi)
+    nodes = set(must_call_nodes(ctx, fi, cfg, target_quals, depth, _seen | {fi.qual}))
+    if not nodes:
+        return False
+    r = cfg.reach([cfg.entry], avoid=lambda n: n in nodes, follow_exc=False)
+    return cfg.exit not in r and cfg.entry not in nodes or (cfg.entry in nodes)
+
+
+def must_call_nodes(ctx, fi, cfg, target_quals, depth=3, _seen=None):
+    """CFG nodes of fi containing a call that surely reaches one of target_quals: the call resolves to a target, or every
+    function it resolves to must-calls a target on all its normal paths"""
+    prog = ctx.prog
+    out = []
+    for n in cfg.nodes:
+        for c in node_calls(n):
+            callees = call_targets(ctx, fi, c)
+            if not callees:
+                continue
+            if any(q in target_quals for q in callees):
+                out.append(n)
+                break
+            if depth > 0 and all(prog.has_func(q) and must_call(ctx, prog.func(q), target_quals, depth - 1, _seen) for q in callees):
+                out.append(n)
+                break
+    return out
